@@ -371,7 +371,28 @@ func checkErrorsIn(c *Checker, R string, pkgNames ...string) {
 			// tested against nil: every path from the non-nil edge reports, unless it passes an enumerated filter
 			if len(u.Compared) > 0 && !isFunc(o, "fmt", "Errorf") && !isFunc(o, "errors", "New") && p.errorIdiom(fn, ci, ev, u.Compared) == "" {
 				swallowed := ""
+				// a second test of the same error (`if err != nil && !IsNotExist(err) {return}; if err == nil && …`)
+				// is reached only with the error nil or already let through by an enumerated filter
+				var classified []Edge
+				_, nilE := errCheckEdges(fn, ev)
+				classified = append(classified, nilE...)
+				for _, blk := range fn.Blocks {
+					ifi, isIf := blk.Instrs[len(blk.Instrs)-1].(*ssa.If)
+					if !isIf {
+						continue
+					}
+					if name, onTrue, ok := errFilterName(ifi.Cond, map[ssa.Value]bool{ev: true}); ok && p.filterAllowed(fn, ev, cn, name, 2) {
+						succ := 0
+						if !onTrue {
+							succ = 1
+						}
+						classified = append(classified, Edge{blk, succ})
+					}
+				}
 				for _, e := range u.Compared {
+					if len(classified) > 0 && e.From != nil && p.guardedC(e.From, classified) {
+						continue
+					}
 					if w := p.unreportedPath(fn, e, ev, cn); w != "" {
 						swallowed = w
 					}
